@@ -1,7 +1,7 @@
 (* Iter_driver.ml — correspondence driver for the iteration model (C11).
    stdin: one case per line, an iterable expression in prefix form (grammar: harness/iter_walk.c).
    argv[1] = model ; one transcript line per case, same format as harness/iter_walk.c:
-     len=..;leaf=..;fwd=..;bwd=..;get=..;sl=..;tab=..       or  build=E:<exn> *)
+     len=..;leaf=..;fwd=..;bwd=..;get=..;gx=..;sl=..;tab=..       or  build=E:<exn> *)
 type ast =
   | Leaf of string * string list            (* kind, ints *)
   | Range of string list
@@ -135,6 +135,15 @@ let () =
             | OFuel -> List.rev ("OUTOFFUEL" :: acc) in
         Buffer.add_string buf (String.concat "," (go 0 []))
       end else Buffer.add_string buf "-";
+      Buffer.add_string buf ";gx=";
+      (match a with
+       | Range _ when nn >= 0 ->
+         let zn = z_of_int nn in
+         let keys = [z_of_int (-1); z_of_int (- nn); z_of_int (- nn - 1); zn;
+                     z_of_dec "9223372036854775807"; z_of_dec "-9223372036854775808"] in
+         Buffer.add_string buf (String.concat "," (List.map (fun k -> match m_get i.it k with
+           | OVal v -> show v | ORaise e -> "E:" ^ exn_s e | OCrash -> "CRASH" | OFuel -> "OUTOFFUEL") keys))
+       | _ -> Buffer.add_string buf "-");
       Buffer.add_string buf (";sl=" ^ String.concat "," (List.map (fun r ->
         z_to_dec r.r_start ^ ":" ^ z_to_dec r.r_stop ^ ":" ^ z_to_dec r.r_step) !slices));
       Buffer.add_string buf (";tab=" ^ String.concat "/" (List.map (fun sl ->
